@@ -24,12 +24,47 @@ from core import cz, cq, clist, ctuple, copt
 
 PAIRS = [(480, 500000), (96, 600000), (1000, 333333), (1, 10 ** 6), (384, 250000), (960, 1000000)]
 THRS = [0, 1, 63, 64, 126, 127]
-EXPECT_MIN = 12
+EXPECT_MIN = 19
 F32_TOL = F(1, 2 ** 20)  # relative tolerance for the float32 columns of note_array
 
 
 # ----------------------------------------------------------------------------
 # generator
+
+
+def gen_ctrls(rng, notes, thr, nc, tie_stream=False, ped_prob=0.7, used=None):
+    """nc control events around the given notes; sustain events (number 64) at pairwise distinct
+    times (also distinct from the times in `used`) unless tie_stream."""
+    lo = min(x["on"] for x in notes)
+    hi = max(x["off"] for x in notes)
+    ctrls = []
+    used = set(used or ())
+    interesting_t = sorted({x["off"] for x in notes} | {x["on"] for x in notes})
+    for i in range(nc):
+        is_ped = rng.random() < ped_prob
+        r = rng.random()
+        if r < 0.15:
+            t = lo - rng.randint(1, 40)  # before the first note (may be negative)
+        elif r < 0.3:
+            t = hi + rng.randint(1, 40)  # after the last release
+        elif r < 0.5:
+            t = rng.choice(interesting_t)  # exactly at an onset / release
+        elif r < 0.6:
+            t = rng.choice(interesting_t) + rng.choice([-1, 1])
+        else:
+            t = rng.randint(lo, hi) if hi > lo else lo
+        num = 64 if is_ped else rng.choice([1, 7, 11, 66, 67, 65, 63])
+        if num == 64:
+            if tie_stream:
+                if used and rng.random() < 0.5:
+                    t = rng.choice(sorted(used))
+            else:
+                while t in used:
+                    t += rng.choice([-1, 1, 2, 3])
+            used.add(t)
+        v = rng.choice([0, 0, 127, 127, 63, 64, 65, thr, min(127, thr + 1), max(0, thr - 1), rng.randint(0, 127), rng.randint(0, 127)])
+        ctrls.append(dict(number=num, t=t, value=v, track=rng.choice([0, 0, 1, 3]), channel=rng.randint(0, 15)))
+    return ctrls
 
 
 def gen_case(rng, tie_stream=False):
@@ -64,35 +99,7 @@ def gen_case(rng, tie_stream=False):
         notes.sort(key=lambda x: -x["on"])
     thr = rng.choice(THRS) if rng.random() < 0.6 else rng.randint(0, 127)
     nc = rng.choice([0, 0, 1, 2, 3, 4, 6, 8, 12, 16, 20])
-    lo = min(x["on"] for x in notes)
-    hi = max(x["off"] for x in notes)
-    ctrls = []
-    used = set()
-    interesting_t = sorted({x["off"] for x in notes} | {x["on"] for x in notes})
-    for i in range(nc):
-        is_ped = rng.random() < 0.7
-        r = rng.random()
-        if r < 0.15:
-            t = lo - rng.randint(1, 40)  # before the first note (may be negative)
-        elif r < 0.3:
-            t = hi + rng.randint(1, 40)  # after the last release
-        elif r < 0.5:
-            t = rng.choice(interesting_t)  # exactly at an onset / release
-        elif r < 0.6:
-            t = rng.choice(interesting_t) + rng.choice([-1, 1])
-        else:
-            t = rng.randint(lo, hi) if hi > lo else lo
-        num = 64 if is_ped else rng.choice([1, 7, 11, 66, 67, 65, 63])
-        if num == 64:
-            if tie_stream:
-                if used and rng.random() < 0.5:
-                    t = rng.choice(sorted(used))
-            else:
-                while t in used:
-                    t += rng.choice([-1, 1, 2, 3])
-            used.add(t)
-        v = rng.choice([0, 0, 127, 127, 63, 64, 65, thr, min(127, thr + 1), max(0, thr - 1), rng.randint(0, 127), rng.randint(0, 127)])
-        ctrls.append(dict(number=num, t=t, value=v, track=rng.choice([0, 0, 1, 3]), channel=rng.randint(0, 15)))
+    ctrls = gen_ctrls(rng, notes, thr, nc, tie_stream)
     thrs = [rng.choice(THRS) if rng.random() < 0.5 else rng.randint(0, 127) for _ in range(rng.choice([1, 2, 3, 4]))]
     if rng.random() < 0.3:
         thrs.append(thrs[-1])  # assigning the same value again
@@ -333,6 +340,424 @@ def term_note_array(case, res):
 
 
 # ----------------------------------------------------------------------------
+# operation histories over a PerformedPart
+#
+# A history case: case["notes"] (a note may carry "so": a preset sound_off >= its release, as a
+# note dict copied from another part does), case["ctrls"], case["thr"], and case["steps"]:
+#   {"op": "thr", "thr": t}
+#   {"op": "ctrls", "how": replace|extend|delete|clear|remove_pedal|remove_pedal_inplace, ..., "thr": t}
+#   {"op": "note", "how": off|on|add|del, ..., "thr": t}
+#   {"op": "rebuild", "how": dicts|objects|copy, "ctrls": "same"|"nopedal"|[...], "thr": t}
+#   {"op": "roundtrip"}
+# Every step ends with what makes the implementation recompute (threshold assignment / constructor).
+# Two independent interpreters of the steps: abs_apply (the harness's own bookkeeping of the current
+# notes / controls / threshold, which feeds the oracle and the Coq model) and impl_apply (the
+# operations on the real objects).
+
+
+def gen_note(rng, notes):
+    lo = min(x["on"] for x in notes)
+    hi = max(x["off"] for x in notes)
+    if rng.random() < 0.7:
+        m = rng.choice(notes)
+        p = m["midi_pitch"]
+        on = rng.choice([m["on"], m["off"], m["off"] + rng.randint(0, 8), max(0, m["on"] - rng.randint(0, 8)), rng.randint(lo, max(lo, hi))])
+    else:
+        p = rng.randint(0, 127)
+        on = rng.randint(lo, max(lo, hi) + 16)
+    dur = rng.choice([0, 1, 4, 16, rng.randint(0, 64)])
+    return dict(midi_pitch=p, on=on, off=on + dur, velocity=rng.randint(1, 127), channel=rng.randint(0, 15), track=rng.choice([0, 0, 1]))
+
+
+def gen_step(rng, st, tie_stream):
+    cur = st["thr"]
+
+    def pick_thr():
+        r = rng.random()
+        if r < 0.45:
+            return cur  # the value the part already has: the assignment must still recompute
+        if r < 0.75:
+            return rng.choice(THRS)
+        return rng.randint(0, 127)
+
+    has_ped = any(c["number"] == 64 for c in st["ctrls"])
+    ped_times = {c["t"] for c in st["ctrls"] if c["number"] == 64}
+    r = rng.random()
+    if r < 0.12:
+        return dict(op="thr", thr=pick_thr())
+    if r < 0.52:
+        hows = ["replace", "replace", "extend", "extend", "delete", "clear"]
+        hows += ["remove_pedal", "remove_pedal", "remove_pedal_inplace", "remove_pedal_inplace"] if has_ped else ["extend", "extend", "replace"]
+        how = rng.choice(hows)
+        step = dict(op="ctrls", how=how, thr=pick_thr())
+        if how == "replace":
+            step["ctrls"] = gen_ctrls(rng, st["notes"], cur, rng.choice([0, 1, 2, 3, 4, 6, 8]), tie_stream, ped_prob=rng.choice([0.0, 0.7, 0.9]))
+        elif how == "extend":
+            step["ctrls"] = gen_ctrls(rng, st["notes"], cur, rng.choice([1, 1, 2, 3, 5]), tie_stream, ped_prob=rng.choice([0.5, 0.9, 1.0]), used=ped_times)
+        elif how == "delete":
+            step["idx"] = rng.randint(0, 40)
+        return step
+    if r < 0.72:
+        how = rng.choice(["off", "off", "off", "on", "add", "del"])
+        step = dict(op="note", how=how, thr=pick_thr())
+        if how in ("off", "on"):
+            step["idx"] = rng.randint(0, 40)
+            step["d"] = rng.choice([0, 0, 1, 4, 16, rng.randint(0, 64), rng.randint(0, 400)])
+        elif how == "add":
+            step["note"] = gen_note(rng, st["notes"])
+        else:
+            step["idx"] = rng.randint(0, 40)
+        return step
+    if r < 0.9:
+        ctrls = rng.choice(["same", "nopedal", "nopedal", None])
+        if ctrls is None:
+            ctrls = gen_ctrls(rng, st["notes"], cur, rng.choice([0, 1, 2, 4, 6]), tie_stream, ped_prob=rng.choice([0.0, 0.7, 0.9]))
+        return dict(op="rebuild", how=rng.choice(["dicts", "objects", "copy"]), ctrls=ctrls, thr=pick_thr())
+    return dict(op="roundtrip")
+
+
+def state_view(st, sc):
+    return dict(notes=st["notes"], ctrls=st["ctrls"], scale=sc)
+
+
+def initial_state(case):
+    return dict(notes=[{k: v for k, v in x.items() if k != "so"} for x in case["notes"]],
+                ctrls=[dict(c) for c in case["ctrls"]], thr=case["thr"], ppq=case["ppq"], mpq=case["mpq"])
+
+
+def abs_apply(st, step, sc):
+    """The harness's bookkeeping: the notes / controls / threshold the part must have after the
+    step.  None: a note-array round trip over a state with sort-order ties (sounding ends open)."""
+    st = dict(notes=[dict(x) for x in st["notes"]], ctrls=[dict(c) for c in st["ctrls"]], thr=st["thr"], ppq=st["ppq"], mpq=st["mpq"])
+    op = step["op"]
+    if op == "thr":
+        st["thr"] = step["thr"]
+    elif op == "ctrls":
+        how = step["how"]
+        if how == "replace":
+            st["ctrls"] = [dict(c) for c in step["ctrls"]]
+        elif how == "extend":
+            st["ctrls"] += [dict(c) for c in step["ctrls"]]
+        elif how in ("remove_pedal", "remove_pedal_inplace"):
+            st["ctrls"] = [c for c in st["ctrls"] if c["number"] != 64]
+        elif how == "clear":
+            st["ctrls"] = []
+        elif how == "delete":
+            if st["ctrls"]:
+                del st["ctrls"][step["idx"] % len(st["ctrls"])]
+        st["thr"] = step["thr"]
+    elif op == "note":
+        how = step["how"]
+        ns = st["notes"]
+        if how == "off":
+            x = ns[step["idx"] % len(ns)]
+            x["off"] = x["on"] + step["d"]
+        elif how == "on":
+            x = ns[step["idx"] % len(ns)]
+            x["on"] = max(0, x["off"] - step["d"])
+        elif how == "add":
+            ns.append(dict(step["note"]))
+        elif how == "del":
+            if len(ns) > 1:
+                del ns[step["idx"] % len(ns)]
+        st["thr"] = step["thr"]
+    elif op == "rebuild":
+        if step["ctrls"] == "nopedal":
+            st["ctrls"] = [c for c in st["ctrls"] if c["number"] != 64]
+        elif step["ctrls"] != "same":
+            st["ctrls"] = [dict(c) for c in step["ctrls"]]
+        st["thr"] = step["thr"]
+    elif op == "roundtrip":
+        v = state_view(st, sc)
+        if has_order_tie(v):
+            return None
+        ends = [spec_sound_off(v, st["thr"], i) * sc for i in range(len(st["notes"]))]
+        for x, e in zip(st["notes"], ends):
+            assert e.denominator == 1
+            x["off"] = int(e)
+        st["ctrls"] = []
+        st["thr"] = 64
+        st["ppq"], st["mpq"] = 480, 500000
+    else:
+        raise ValueError(op)
+    return st
+
+
+def note_dict(x, k, sc):
+    d = dict(id="n%d" % k, midi_pitch=x["midi_pitch"], note_on=x["on"] / sc, note_off=x["off"] / sc,
+             velocity=x["velocity"], channel=x["channel"], track=x["track"])
+    if "so" in x:
+        d["sound_off"] = x["so"] / sc
+    return d
+
+
+def ctrl_dict(c, sc):
+    return dict(number=c["number"], time=c["t"] / sc, value=c["value"], track=c["track"], channel=c["channel"])
+
+
+def build_state(st, sc, carried=None):
+    """A fresh PerformedPart from plain dicts for an abstract state (carried: notes with "so")."""
+    import partitura.performance as P
+
+    sc = float(sc)
+    notes = [note_dict(x, k, sc) for k, x in enumerate(carried if carried is not None else st["notes"])]
+    return P.PerformedPart(notes, controls=[ctrl_dict(c, sc) for c in st["ctrls"]], sustain_pedal_threshold=st["thr"],
+                           ppq=st["ppq"], mpq=st["mpq"])
+
+
+def impl_apply(pp, step, sc, serial):
+    """The same step on the real objects; returns the part to go on with."""
+    import partitura.performance as P
+
+    sc = float(sc)
+    op = step["op"]
+    if op == "thr":
+        pp.sustain_pedal_threshold = step["thr"]
+        return pp
+    if op == "ctrls":
+        how = step["how"]
+        if how == "replace":
+            pp.controls = [ctrl_dict(c, sc) for c in step["ctrls"]]
+        elif how == "extend":
+            pp.controls.extend(ctrl_dict(c, sc) for c in step["ctrls"])
+        elif how == "remove_pedal":
+            pp.controls = [c for c in pp.controls if c["number"] != 64]
+        elif how == "remove_pedal_inplace":
+            pp.controls[:] = [c for c in pp.controls if c["number"] != 64]
+        elif how == "clear":
+            pp.controls.clear()
+        elif how == "delete":
+            if pp.controls:
+                del pp.controls[step["idx"] % len(pp.controls)]
+        pp.sustain_pedal_threshold = step["thr"]
+        return pp
+    if op == "note":
+        how = step["how"]
+        n = len(pp.notes)
+        if how == "off":
+            note = pp.notes[step["idx"] % n]
+            note["note_off"] = float(note["note_on"]) + step["d"] / sc
+        elif how == "on":
+            note = pp.notes[step["idx"] % n]
+            note["note_on"] = max(0.0, float(note["note_off"]) - step["d"] / sc)
+        elif how == "add":
+            d = note_dict(step["note"], 0, sc)
+            d["id"] = "a%d" % serial
+            pp.notes.append(P.PerformedNote(d))
+        elif how == "del":
+            if n > 1:
+                del pp.notes[step["idx"] % n]
+        pp.sustain_pedal_threshold = step["thr"]
+        return pp
+    if op == "rebuild":
+        if step["ctrls"] == "same":
+            ctrls = list(pp.controls)
+        elif step["ctrls"] == "nopedal":
+            ctrls = [c for c in pp.controls if c["number"] != 64]
+        else:
+            ctrls = [ctrl_dict(c, sc) for c in step["ctrls"]]
+        if step["how"] == "dicts":
+            notes = [dict(n.pnote_dict) for n in pp.notes]  # every dict carries the sound_off of the old part
+        elif step["how"] == "copy":
+            notes = [n.copy() for n in pp.notes]
+        else:
+            notes = list(pp.notes)
+        return P.PerformedPart(notes, controls=ctrls, sustain_pedal_threshold=step["thr"], ppq=pp.ppq, mpq=pp.mpq)
+    if op == "roundtrip":
+        return P.PerformedPart.from_note_array(pp.note_array())
+    raise ValueError(op)
+
+
+def observe(pp):
+    return dict(on=[F(float(n["note_on"])) for n in pp.notes], off=[F(float(n["note_off"])) for n in pp.notes],
+                pitch=[int(n["midi_pitch"]) for n in pp.notes], so=[F(float(n["sound_off"])) for n in pp.notes],
+                thr=pp.sustain_pedal_threshold)
+
+
+def oracle_state(st, obs, sc, label):
+    """The property on one state of a history: the sounding ends the part shows must be the ones
+    the pedal dictates for the notes / controls / threshold it has NOW.  -> (failures, tie)"""
+    bad = []
+    ns = st["notes"]
+    v = state_view(st, sc)
+    tie = has_order_tie(v)
+    if (len(obs["so"]) != len(ns) or obs["pitch"] != [x["midi_pitch"] for x in ns] or obs["on"] != [F(x["on"], sc) for x in ns]
+            or obs["off"] != [F(x["off"], sc) for x in ns]):
+        return ["%s: the part's notes (pitch, onset, release) are not the ones the steps lead to: pitches %s onsets %s releases %s, expected %s %s %s"
+                % (label, obs["pitch"], [float(x) for x in obs["on"]], [float(x) for x in obs["off"]], [x["midi_pitch"] for x in ns],
+                   [x["on"] / sc for x in ns], [x["off"] / sc for x in ns])], tie
+    thr = st["thr"]
+    no_pedal = not any(c["number"] == 64 for c in st["ctrls"])
+    for i, so in enumerate(obs["so"]):
+        off = F(ns[i]["off"], sc)
+        if so < off:
+            bad.append("%s note %d: sound_off %s < note_off %s" % (label, i, float(so), float(off)))
+        elif no_pedal and so != off:
+            bad.append("%s note %d: no pedal events in the controls, sound_off %s differs from the release %s (not recomputed)"
+                       % (label, i, float(so), float(off)))
+        elif thr >= 127 and so != off:
+            bad.append("%s note %d: threshold %d, sound_off %s differs from the release %s" % (label, i, thr, float(so), float(off)))
+        elif not tie:
+            exp = spec_sound_off(v, thr, i)
+            if so != exp:
+                bad.append("%s note %d (pitch %d, on %s, off %s, threshold %d): sound_off %s, the pedal dictates %s"
+                           % (label, i, ns[i]["midi_pitch"], ns[i]["on"] / sc, float(off), thr, float(so), float(exp)))
+    return bad, tie
+
+
+FAIL_CLASSES = ["< note_off", "no pedal events in the controls", "differs from the release", "the pedal dictates", "depends on the history",
+                "raised", "are not the ones the steps lead to"]
+
+
+def fail_class(msg):
+    for k in FAIL_CLASSES:
+        if k in msg:
+            return k
+    return msg[:25]
+
+
+def judge_hist(case):
+    """-> (failures, trace, tie); trace = [(abstract state, observation)] after construction and after every applied step."""
+    sc = case["scale"]
+    st = initial_state(case)
+    trace = []
+    any_tie = False
+    try:
+        pp = build_state(st, sc, carried=case["notes"])
+    except Exception as e:
+        return ["construction (notes with 0 <= onset <= release <= carried sound_off) raised %s: %s" % (type(e).__name__, e)], trace, any_tie
+    obs = observe(pp)
+    bad, tie = oracle_state(st, obs, sc, "after construction")
+    any_tie |= tie
+    trace.append((st, obs))
+    if bad:
+        return bad, trace, any_tie
+    for k, step in enumerate(case["steps"]):
+        st2 = abs_apply(st, step, sc)
+        if st2 is None:
+            break  # round trip over a tied state: the history ends here
+        label = "after step %d (%s%s)" % (k + 1, step["op"], ":" + step["how"] if "how" in step else "")
+        try:
+            pp = impl_apply(pp, step, sc, k)
+            obs = observe(pp)
+        except Exception as e:
+            return ["%s: raised %s: %s" % (label, type(e).__name__, e)], trace, any_tie
+        st = st2
+        bad, tie = oracle_state(st, obs, sc, label)
+        any_tie |= tie
+        trace.append((st, obs))
+        if not bad:
+            # independent of the specification: a part built from scratch for the current notes,
+            # controls and threshold shows the same sounding ends (the result has no memory)
+            try:
+                fresh = observe(build_state(st, sc))["so"]
+            except Exception as e:
+                fresh = None
+                bad.append("%s: building the current notes/controls afresh raised %s: %s" % (label, type(e).__name__, e))
+            if fresh is not None and fresh != obs["so"]:
+                bad.append("%s: sound_off column %s, a part built afresh from the same notes, controls and threshold has %s (the result depends on the history)"
+                           % (label, [float(x) for x in obs["so"]], [float(x) for x in fresh]))
+        if bad:
+            return bad, trace, any_tie
+    return [], trace, any_tie
+
+
+def gen_hist_case(rng, tie_stream=False):
+    c = gen_case(rng, tie_stream)
+    del c["thrs"]
+    sc = c["scale"]
+    if not any(x["number"] == 64 for x in c["ctrls"]) and rng.random() < 0.6:
+        # mostly start from a pedalled part, so that there are extended notes to forget
+        c["ctrls"] = gen_ctrls(rng, c["notes"], c["thr"], rng.choice([2, 3, 4, 6, 8]), tie_stream, ped_prob=0.85)
+        if rng.random() < 0.5:
+            lo = min(x["on"] for x in c["notes"])
+            c["ctrls"].insert(0, dict(number=64, t=lo - 1 - rng.randint(0, 8), value=127, track=0, channel=0))
+            if not tie_stream:
+                times = [x["t"] for x in c["ctrls"][1:] if x["number"] == 64]
+                while c["ctrls"][0]["t"] in times:
+                    c["ctrls"][0]["t"] -= 1
+    if rng.random() < 0.35:
+        # notes that already carry a sounding end (copied from another part / arbitrary)
+        for x in c["notes"]:
+            if rng.random() < 0.8:
+                x["so"] = x["off"] + rng.choice([0, 1, 8, 16, rng.randint(0, 64), rng.randint(0, 640)])
+        if rng.random() < 0.5:
+            c["ctrls"] = [x for x in c["ctrls"] if x["number"] != 64]
+    st = initial_state(c)
+    steps = []
+    for _ in range(rng.choice([1, 2, 2, 3, 3, 4, 5, 6])):
+        step = gen_step(rng, st, tie_stream)
+        st2 = abs_apply(st, step, sc)
+        if st2 is None:
+            break
+        steps.append(step)
+        st = st2
+    c["steps"] = steps
+    return c
+
+
+def c_step(step, st_after, sc):
+    op = step["op"]
+    if op == "thr":
+        return "(SetThr %s)" % cz(step["thr"])
+    if op == "ctrls":
+        return "(SetCtrls %s %s)" % (clist([c_ctrl(c, sc) for c in st_after["ctrls"]]), cz(step["thr"]))
+    if op == "note":
+        return "(SetNotes %s %s)" % (clist([c_note(x, sc) for x in st_after["notes"]]), cz(step["thr"]))
+    if op == "rebuild":
+        return "(Rebuild %s %s)" % (clist([c_ctrl(c, sc) for c in st_after["ctrls"]]), cz(step["thr"]))
+    return "(RoundTrip 480 500000)"
+
+
+def term_steps(case, trace):
+    sc = case["scale"]
+    steps = case["steps"][:len(trace) - 1]
+    so0 = [F(x.get("so", x["off"]), sc) for x in case["notes"]]
+    return ctuple([cz(case["thr"]), clist([c_note(x, sc) for x in case["notes"]]), c_qlist(so0),
+                   clist([c_ctrl(c, sc) for c in case["ctrls"]]),
+                   clist([c_step(s, trace[k + 1][0], sc) for k, s in enumerate(steps)]),
+                   clist([ctuple([c_qlist(o["off"]), c_qlist(o["so"])]) for _, o in trace])])
+
+
+def hist_corpus_cases():
+    def N(p, on, off, so=None, ch=0, tr=0, v=64):
+        d = dict(midi_pitch=p, on=on, off=off, velocity=v, channel=ch, track=tr)
+        if so is not None:
+            d["so"] = so
+        return d
+
+    def C(t, v, num=64):
+        return dict(number=num, t=t, value=v, track=0, channel=0)
+
+    base = dict(thr=64, ppq=480, mpq=500000, scale=16)
+    notes = [N(60, 0, 16), N(64, 8, 24), N(60, 64, 80)]
+    pedal = [C(3, 127), C(48, 0)]
+    other = [C(2, 100, 7), C(5, 127, 67)]
+    out = []
+    # pedal events removed after they extended notes, the same threshold assigned again
+    for how in ("remove_pedal", "remove_pedal_inplace", "clear"):
+        out.append(dict(base, notes=[dict(x) for x in notes], ctrls=pedal + other, steps=[dict(op="ctrls", how=how, thr=64)]))
+    out.append(dict(base, notes=[dict(x) for x in notes], ctrls=pedal + other,
+                    steps=[dict(op="ctrls", how="replace", ctrls=other, thr=64), dict(op="ctrls", how="extend", ctrls=pedal, thr=64),
+                           dict(op="ctrls", how="remove_pedal", thr=0), dict(op="thr", thr=127)]))
+    # a part without pedal built from notes that carry the sounding ends of a pedalled part
+    out.append(dict(base, notes=[N(60, 0, 16, so=48), N(64, 8, 24, so=48), N(60, 64, 80, so=80)], ctrls=list(other), steps=[]))
+    for how in ("dicts", "objects", "copy"):
+        out.append(dict(base, notes=[dict(x) for x in notes], ctrls=pedal + other,
+                        steps=[dict(op="rebuild", how=how, ctrls="nopedal", thr=64), dict(op="rebuild", how=how, ctrls=pedal, thr=64)]))
+    # carried sounding ends with a pedal that dictates something else
+    out.append(dict(base, notes=[N(60, 0, 16, so=200), N(64, 8, 24, so=24), N(60, 64, 80, so=81)], ctrls=pedal, steps=[dict(op="thr", thr=64)]))
+    # release moved past / before the old sounding end, then the threshold assigned; pedal added later
+    out.append(dict(base, notes=[dict(x) for x in notes], ctrls=pedal,
+                    steps=[dict(op="note", how="off", idx=0, d=60, thr=64), dict(op="note", how="off", idx=0, d=2, thr=64),
+                           dict(op="ctrls", how="clear", thr=64), dict(op="ctrls", how="extend", ctrls=[C(1, 100), C(30, 64)], thr=64)]))
+    # note array round trip of a pedalled part, pedal added to the rebuilt part afterwards
+    out.append(dict(base, notes=[dict(x) for x in notes], ctrls=pedal,
+                    steps=[dict(op="roundtrip"), dict(op="ctrls", how="extend", ctrls=[C(40, 127), C(100, 0)], thr=64), dict(op="ctrls", how="clear", thr=64)]))
+    return out
+
+
+# ----------------------------------------------------------------------------
 # track renumbering
 
 
@@ -407,10 +832,10 @@ def oracle_tracks(pairs, num_tracks):
 # ----------------------------------------------------------------------------
 
 
-def shrink(case, still_fails):
-    """ddmin over controls, then notes, then later assignments."""
+def shrink(case, still_fails, keys=("ctrls", "thrs", "notes")):
+    """ddmin over controls, then later assignments / steps, then notes."""
     c = dict(case)
-    for key in ("ctrls", "thrs", "notes"):
+    for key in keys:
         if len(c[key]) >= 2 or (key != "notes" and len(c[key]) >= 1):
             def fails(sub, key=key):
                 d = dict(c)
@@ -425,6 +850,30 @@ def shrink(case, still_fails):
                 c[key] = []
                 continue
             c[key] = core.ddmin(c[key], fails)
+    return c
+
+
+def shrink_hist(case, still_fails):
+    def guarded(d):
+        try:
+            return still_fails(d)
+        except Exception:
+            return False
+
+    c = shrink(case, still_fails, keys=("steps", "ctrls", "notes", "steps"))
+    # carried sounding ends that are not needed
+    for k in range(len(c["notes"])):
+        if "so" in c["notes"][k]:
+            d = dict(c, notes=[({kk: vv for kk, vv in x.items() if kk != "so"} if j == k else x) for j, x in enumerate(c["notes"])])
+            if guarded(d):
+                c = d
+    # control lists inside the steps
+    for k, step in enumerate(c["steps"]):
+        if isinstance(step.get("ctrls"), list) and len(step["ctrls"]) >= 1:
+            def fails(sub, k=k, step=step):
+                return guarded(dict(c, steps=[(dict(step, ctrls=sub) if j == k else x) for j, x in enumerate(c["steps"])]))
+            sub = [] if fails([]) else (core.ddmin(step["ctrls"], fails) if len(step["ctrls"]) >= 2 else step["ctrls"])
+            c = dict(c, steps=[(dict(step, ctrls=sub) if j == k else x) for j, x in enumerate(c["steps"])])
     return c
 
 
@@ -548,6 +997,70 @@ def run(ctx):
         ctx.count("tie_stream:agrees_with_stable_order_model", len(tie_terms) - len(tfail))
         ctx.count("tie_stream:differs_from_stable_order_model(reported only)", len(tfail))
 
+    # ---- operation histories
+    n_hist = 700 if quick else 15000
+    n_hist_tie = 100 if quick else 2000
+    hcases = [(c, "corpus") for c in hist_corpus_cases()]
+    hcases += [(gen_hist_case(rng), "hist") for _ in range(n_hist)]
+    hcases += [(gen_hist_case(rng, tie_stream=True), "tie?") for _ in range(n_hist_tie)]
+    st_terms, st_cases, stt_terms = [], [], []
+    n_hviol = 0
+    for case, kind in hcases:
+        bad, trace, tie = judge_hist(case)
+        ctx.evaluations += max(1, len(trace))
+        ctx.count("histories:" + ("tie" if tie else "main"))
+        if bad:
+            if n_hviol < 5:
+                cls = fail_class(bad[0])
+
+                def still(d, cls=cls):
+                    b, _, _ = judge_hist(d)
+                    return bool(b) and fail_class(b[0]) == cls
+                small = shrink_hist(case, still)
+                b2, _, _ = judge_hist(small)
+                ctx.violation("C14 fails on the implementation after a history of operations: " + "; ".join((b2 or bad)[:3]),
+                              {"kind": "history", "case": small, "failures": (b2 or bad)[:5]})
+            n_hviol += 1
+            continue
+        sc = case["scale"]
+        steps = case["steps"][:len(trace) - 1]
+        for s_ in steps:
+            ctx.count("hist_step:%s%s" % (s_["op"], ":" + s_["how"] if "how" in s_ else ""))
+        ext = [any(so != off for so, off in zip(o["so"], o["off"])) for _, o in trace]
+        noped = [not any(c["number"] == 64 for c in st["ctrls"]) for st, _ in trace]
+        carried = any(x.get("so", x["off"]) != x["off"] for x in case["notes"])
+        if any(ext[k] and noped[k + 1] for k in range(len(trace) - 1)):
+            ctx.count("histories:pedal_events_gone_after_they_extended_notes")
+        if any(noped[k] and ext[k + 1] for k in range(len(trace) - 1)):
+            ctx.count("histories:pedal_events_added_later_extend_notes")
+        if carried:
+            ctx.count("histories:notes_carry_sound_off" + ("_no_pedal" if noped[0] else "_with_pedal"))
+        if any(s_["op"] != "thr" and s_.get("thr") == trace[k][0]["thr"] for k, s_ in enumerate(steps)):
+            ctx.count("histories:edit_then_same_threshold_assigned")
+        if any(ext) or carried:
+            ctx.nontrivial("hist" + json.dumps(case, sort_keys=True))
+        if len(ctx.samples) < 5 and any(ext[k] and noped[k + 1] for k in range(len(trace) - 1)) and len(steps) <= 3:
+            ctx.sample({"history_case": case, "sound_off_after_each_step": [[float(x) for x in o["so"]] for _, o in trace]})
+        t = term_steps(case, trace)
+        if tie:
+            stt_terms.append(t)
+        else:
+            st_terms.append(t)
+            st_cases.append((case, trace))
+    if ok:
+        failing = ctx.coq_failing("steps", imports, "", st_terms, "check_steps", shard=200)
+        ctx.obligation("correspondence: Model.C14.new_part_carrying / apply_step (SetThr, SetCtrls, SetNotes, Rebuild, RoundTrip) = note_off and sound_off "
+                       "columns of the PerformedPart after construction from notes carrying sound_off values and after each of %d steps, %d histories"
+                       % (sum(len(tr) - 1 for _, tr in st_cases), len(st_terms)), not failing, failing[:5])
+        for i in failing[:3]:
+            case, trace = st_cases[i]
+            ctx.violation("model and implementation disagree on the sound_off column after a history of operations "
+                          "(the theorems of Props/C14.v no longer describe this code)",
+                          {"kind": "history-model", "case": case, "impl_sound_off_after_each_step": [[float(x) for x in o["so"]] for _, o in trace]})
+        tfail = ctx.coq_failing("steps_tie", imports, "", stt_terms, "check_steps", shard=200) if stt_terms else []
+        ctx.count("tie_histories:agree_with_stable_order_model", len(stt_terms) - len(tfail))
+        ctx.count("tie_histories:differ_from_stable_order_model(reported only)", len(tfail))
+
     # ---- track renumbering
     tr_terms, tr_cases = [], []
     for i in range(n_perf):
@@ -617,6 +1130,19 @@ def replay(obj):
         print("specification (pedal dictates):")
         for t in [case["thr"]] + case["thrs"]:
             print("  threshold %d:" % t, [float(spec_sound_off(case, t, i)) for i in range(len(case["notes"]))])
+        print("oracle:", bad or "holds")
+    elif kind in ("history", "history-model"):
+        case = r["case"]
+        sc = case["scale"]
+        bad, trace, tie = judge_hist(case)
+        labels = ["construction"] + ["step %d %s" % (k + 1, json.dumps(s_)) for k, s_ in enumerate(case["steps"])]
+        for (st, o), lab in zip(trace, labels):
+            v = state_view(st, sc)
+            print(lab[:300])
+            print("  notes (pitch, on, off):", [(x["midi_pitch"], x["on"] / sc, x["off"] / sc) for x in st["notes"]])
+            print("  controls (number, time, value):", [(c["number"], c["t"] / sc, c["value"]) for c in st["ctrls"]], "threshold", st["thr"])
+            print("  implementation sound_off:", [float(x) for x in o["so"]])
+            print("  the pedal dictates      :", "(order tie: not determined)" if has_order_tie(v) else [float(spec_sound_off(v, st["thr"], i)) for i in range(len(st["notes"]))])
         print("oracle:", bad or "holds")
     elif kind in ("tracks", "tracks-model"):
         rr = run_perf(r["case"])
